@@ -290,6 +290,19 @@ def find_item(src, path, toks=None):
 LOOP_KW = {"for", "while", "loop"}
 
 
+def loop_vars(item):
+    """name of the iteration variable of each loop (source order): the identifier after `for` when the pattern is a
+    single identifier, else None.  Overlays write `$it<N>` for it, so renaming the variable keeps the annotations."""
+    toks = item.toks
+    out = []
+    for kw, brace in _loops(item):
+        name = None
+        if toks[kw][1] == "for" and toks[kw + 1][0] == "id" and toks[kw + 2][0] == "id" and toks[kw + 2][1] == "in":
+            name = toks[kw + 1][1]
+        out.append(name)
+    return out
+
+
 def _loops(item):
     """token indices of loop keywords inside a fn body, source order, with the
     index of the '{' opening each loop body"""
